@@ -50,6 +50,7 @@ type Weights struct {
 	Peer                                                                           bool
 	Kinds                                                                          bool
 	InPlaceKind                                                                    bool
+	NoGatewayWildcard                                                              bool
 }
 
 func NewGen(r *rand.Rand, u Universe, w Weights) *Gen { return &Gen{R: r, U: u, W: w} }
@@ -93,6 +94,9 @@ func (g *Gen) Register() Step {
 	if simkit.Chance(g.R, 15) {
 		s.NodeMeta = "rack=" + g.pick([]string{"r1", "r2"})
 	}
+	if simkit.Chance(g.R, 12) {
+		s.Loc = g.pick([]string{"us-east/a", "us-east/b", "eu/c"})
+	}
 	if simkit.Chance(g.R, 75) {
 		g.fillService(&s)
 	}
@@ -128,6 +132,9 @@ func (g *Gen) fillService(s *Step) {
 		s.SvcID = s.Svc + g.pick([]string{"1", "2"})
 	}
 	s.Port = 8000 + g.R.IntN(3)
+	if simkit.Chance(g.R, 8) {
+		s.SvcLoc = g.pick([]string{"us-east/a", "eu/c"})
+	}
 	if simkit.Chance(g.R, 30) {
 		s.Tags = []string{g.pick([]string{"v1", "v2", "primary"})}
 	}
@@ -331,6 +338,60 @@ func (g *Gen) Advance() Step {
 
 func (g *Gen) Reap() Step {
 	return Step{Op: "reap", Idx: g.pick([]string{"all", "none", "half", "half"})}
+}
+
+// Macro returns a short scripted scenario (several steps) around a rare but important situation; plans
+// splice a few of these between random steps so that the situation arises in a useful fraction of runs.
+func (g *Gen) Macro() []Step {
+	switch g.R.IntN(3) {
+	case 0:
+		// lock-delay window: a session with a lock-delay holds a key and ends; after the delay has passed on
+		// the leader's clock another session takes the lock. Whether a replica that applies these entries
+		// at another pace agrees is C01's business; the KV outcome is C03's.
+		node := g.pick(g.U.Nodes)
+		key := g.pick(g.U.Keys)
+		if key == "" {
+			key = "a"
+		}
+		s1, s2 := g.SessionCreate(), g.SessionCreate()
+		s1.Node, s2.Node = node, node
+		s1.LockDelay, s1.NoChecks, s1.NodeChks, s1.SvcChks, s1.TTL = g.pick([]string{"1s", "15s", "60s"}), true, nil, nil, ""
+		s2.NoChecks, s2.NodeChks, s2.SvcChks, s2.TTL = true, nil, nil, ""
+		wait := map[string]string{"1s": "1100ms", "15s": "16s", "60s": "61s"}[s1.LockDelay]
+		return []Step{
+			{Op: "register", Node: node, Addr: "10.0.0.7"},
+			s1,
+			{Op: "kv.lock", Key: key, Val: "held", Sess: s1.Sess},
+			{Op: "session.destroy", Sess: s1.Sess},
+			{Op: "advance", Dur: wait},
+			s2,
+			{Op: "kv.lock", Key: key, Val: "taken", Sess: s2.Sess},
+		}
+	case 1:
+		// a session bound to a check that goes critical through an update that carries no status
+		node := g.pick(g.U.Nodes)
+		s1 := g.SessionCreate()
+		s1.Node, s1.NoChecks, s1.NodeChks, s1.SvcChks, s1.TTL = node, false, []string{"c1"}, nil, ""
+		s2 := g.SessionCreate()
+		s2.Node, s2.NoChecks, s2.NodeChks, s2.SvcChks, s2.TTL = node, false, []string{"c1"}, nil, ""
+		key := "b"
+		return []Step{
+			{Op: "register", Node: node, Addr: "10.0.0.7", Checks: []Check{{ID: "c1", Status: "passing"}}},
+			s1, s2,
+			{Op: "kv.lock", Key: key, Val: "x", Sess: s1.Sess},
+			{Op: "kv.lock", Key: "ab", Val: "y", Sess: s2.Sess},
+			{Op: "register", Node: node, SkipNode: true, Checks: []Check{{ID: "c1", Status: g.pick([]string{"", "critical", "warning"})}}},
+		}
+	default:
+		// tag-filtered / node-meta changes on a node that already has services
+		node := g.pick(g.U.Nodes)
+		svc := g.pick(g.U.Services)
+		return []Step{
+			{Op: "register", Node: node, Addr: "10.0.0.7", Svc: svc, SvcID: svc + "1", Port: 8000, Tags: []string{"v1"}, NodeMeta: "rack=r1"},
+			{Op: "register", Node: node, Addr: "10.0.0.7", Svc: svc, SvcID: svc + "1", Port: 8000, Tags: []string{g.pick([]string{"v2", "primary"})}},
+			{Op: "register", Node: node, Addr: "10.0.0.7", NodeMeta: "rack=" + g.pick([]string{"r2", "r3"})},
+		}
+	}
 }
 
 // Next draws one step according to the weights.
